@@ -8,6 +8,30 @@ BASELINE = ("cd /repo && env -u OTEL2PUML_VERIF /venv/bin/python -m pytest -ra -
 
 # id -> (category, technique, level text, level note, design ref)
 TABLE = {
+    "C13": ("proof",
+            "Coq: jq-fragment evaluator + compiler model + printer; theorem eval(compile m) = flatten_code m for every document; agreement with the documented flattening on regular inputs, refutations with witnesses elsewhere; three-leg correspondence (program text byte for byte, libjq, JSONDataSource)",
+            "Universal Coq theorem (c13_compile_exact): for every well-formed mapping and EVERY document the compiled jq program, run by a "
+            "Gallina big-step evaluator of the emitted jq fragment, yields exactly flatten_code m doc, a direct (jq-free) recursive "
+            "description of what the code computes; c13_regular_agree / c13_compile_correct_partial: on `regular` inputs this equals the "
+            "DOCUMENTED flattening (FlattenSpec); outside them the documented statement is refuted by theorems with concrete witnesses "
+            "(known findings). Skipping: extract = filter valid ..., per-line = concatenation, an invalid record changes nothing else. "
+            "Tied to /repo on every run by three legs: print_jq (compile m) equals field_mapping_to_jq_query(m) byte for byte; "
+            "flatten_code equals the records the real compiled program yields under libjq; extract_lines equals the events "
+            "JSONDataSource yields for whole-file and one-JSON-per-line files (plus the direct check that the events are exactly the "
+            "records that validate, in order).",
+            "Trusted: Coq kernel+vm_compute; libjq semantics of the emitted fragment and pydantic validation as modelled (both under a "
+            "correspondence leg); integers only (no floats); JSON text decoding is Python's; harness generators.",
+            "4/C13"),
+    "C14": ("proof",
+            "Coq round-trip theorem for the PV event file boundary under an injective field mapping; both routes through the real CLI with per-instance certified diagram equivalence and file/stream equality",
+            "Proved: load mc (save mc e) = Some e and the job-file version for every event and every mapping with distinct keys (a colliding "
+            "mapping is shown to corrupt silently), exact key list of the saved file. Per instance through the real CLI in separate "
+            "processes: otel2puml vs otel2pv -se [-mc] followed by pv2puml -fp <job dir> -jn <job> [-mc], default and custom mapping, "
+            "sync and async sequencing: per workflow the two diagrams are certified language-equivalent in coqc, and the saved files, "
+            "mapped back, equal the PV stream obtained in-process from otel_to_pv (events, links, every field).",
+            "Trusted: Coq kernel+vm_compute; diagram equivalence is validated per instance (not proved for the learner); the custom "
+            "mapping is injective; CLI driven with a jq_query data source and an in-memory database; harness.",
+            "4/C14"),
     'C01': ('translation_validation',
             'verified validator (accepts_b: sound, no false rejection) + per-instance kernel-checked certificates over a frozen pool of fragment-F definitions; partial',
             "PARTIAL: the learner's universal correctness is not proved (it is a heuristic). Proved in Coq: the validator's meaning (accepts_b_spec), invariance of the canonical form under job-graph isomorphism (no job isomorphic to a run is ever rejected), topological order of every run, and that ingestion drops no observed successor/predecessor set (ingest_evidence). Established per run: for every definition of the slice (thorough: all 1200 pool definitions; complete execution set and a seeded proper subset) the real pv_to_puml_string terminates within the limit, its text parses (parse_sound), and coqc certifies that every input job is accepted by the emitted diagram.",
@@ -130,7 +154,7 @@ TABLE = {
 }
 
 # properties whose check is finished and quiet on the unchanged tree
-READY = {"C01", "C02", "C03", "C04", "C05", "C06", "C07", "C08", "C09", "C10", "C11", "C12", "C15", "C16"}
+READY = {"C%02d" % i for i in range(1, 17)}
 
 NOT_YET = {
 }
